@@ -2,6 +2,8 @@
 package c20
 
 import (
+	"sync"
+
 	"go.uber.org/zap/zapcore"
 
 	"github.com/0chain/common/core/logging"
@@ -11,6 +13,7 @@ import (
 
 var Harnesses = map[string]func(){
 	"H_Ring": H_Ring,
+	"H_Conc": H_Conc,
 }
 
 // enc is a trivial encoder: only Clone is ever needed (derived cores clone it).
@@ -89,4 +92,123 @@ func H_Ring() {
 	}
 	vp.Observe("final", len(written), len(cores))
 	vp.Cover("C20.done")
+}
+
+// H_Conc: `writers` goroutines write `per` entries each through the root core while, optionally,
+// a reader goroutine takes a snapshot.  Schedules are explored at lock granularity (every lock
+// operation is a scheduling point; the code between two of them is one step, which the
+// happens-before monitor justifies or refutes).  Stamps are distinct symbolic integers,
+// increasing per writer.
+//   - final snapshot: some merge of the writers' sequences, newest first, cut to the capacity:
+//     per writer the retained stamps are a suffix of what it wrote, in its order, nothing twice;
+//   - the reader's snapshot (only taken when the total stays within the capacity, so that no
+//     entry object is ever reused while the reader looks at it): per writer a prefix of what it
+//     wrote, newest first within that writer.
+func H_Conc() {
+	writers := vp.Param("writers", 2)
+	per := vp.Param("per", 2)
+	reader := vp.Param("reader", 0) == 1
+	vp.ExploreSchedules(vp.Param("preempt", -1))
+	vp.YieldAtLocks(true)
+	vp.RaceDetect(true)
+	capacity := logging.BufferSize
+	ml := logging.NewMemLogger(&enc{}, all{})
+	core := ml.GetCore()
+	stamps := make([][]int, writers)
+	for w := 0; w < writers; w++ {
+		last := w * (1 << 20)
+		for i := 0; i < per; i++ {
+			d := int(vp.Int64("stamp"))
+			vp.Assume(d > last)
+			vp.Assume(d < (w+1)*(1<<20))
+			last = d
+			stamps[w] = append(stamps[w], d)
+		}
+	}
+	owner := func(d int) int { return d >> 20 }
+	for w := 0; w < writers; w++ {
+		w := w
+		vp.Go(func() {
+			for _, d := range stamps[w] {
+				_ = core.Write(entry(d), nil)
+			}
+		})
+	}
+	var snap []int
+	var hmu sync.Mutex
+	if reader {
+		vp.Go(func() {
+			logs := ml.GetLogs()
+			var got []int
+			for _, l := range logs {
+				if l != nil {
+					got = append(got, l.Caller.Line)
+				} else {
+					got = append(got, -1)
+				}
+			}
+			hmu.Lock()
+			snap = got
+			hmu.Unlock()
+		})
+	}
+	vp.Wait()
+	total := writers * per
+	n := total
+	if n > capacity {
+		n = capacity
+	}
+	// suffixOK: the stamps of writer w inside got (newest first) are, read backwards, a suffix
+	// (final snapshot) or a prefix (reader snapshot) of stamps[w]
+	check := func(label string, got []int, suffix bool) {
+		seen := make([]int, writers)
+		for i := len(got) - 1; i >= 0; i-- { // oldest first
+			d := got[i]
+			vp.Assert(label+".entry-present", d >= 0)
+			if d < 0 {
+				return
+			}
+			w := owner(d)
+			vp.Assert(label+".stamp-was-written", w >= 0 && w < writers)
+			if w < 0 || w >= writers {
+				return
+			}
+			seen[w]++
+		}
+		pos := make([]int, writers)
+		for w := range pos {
+			if suffix {
+				pos[w] = per - seen[w]
+			}
+		}
+		for i := len(got) - 1; i >= 0; i-- {
+			w := owner(got[i])
+			ok := pos[w] >= 0 && pos[w] < per && stamps[w][pos[w]] == got[i]
+			vp.Assert(label+".per-writer-order-none-lost-none-twice", ok)
+			if !ok {
+				return
+			}
+			pos[w]++
+		}
+	}
+	final := ml.GetLogs()
+	vp.Assert("C20.conc.count", len(final) == n)
+	var fin []int
+	for _, l := range final {
+		if l != nil {
+			fin = append(fin, l.Caller.Line)
+		} else {
+			fin = append(fin, -1)
+		}
+	}
+	check("C20.conc.final", fin, true)
+	if reader {
+		vp.Assert("C20.conc.snapshot-size", len(snap) <= n)
+		check("C20.conc.snapshot", snap, false)
+		vp.Cover("C20.conc.snapshot")
+	}
+	if total > capacity {
+		vp.Cover("C20.conc.wrapped")
+	}
+	vp.Cover("C20.conc.done")
 }
